@@ -9,6 +9,9 @@
 //   case <id> <v|a|rv|ra> <helper-delay 0..2>  v: generator<int>  a: generator<int,int>  rv: generator<int&>  ra: generator<int&,int>
 //   script <act>...      y<v> co_yield v | n co_yield nullptr | r co_await <ready cocls::future> |
 //                        p<k> co_await <harness event k> | f<k> co_await <cocls::future k> | g construct a RAII guard local |
+//                        q co_await cocls::pause() (needs the coroutine queue of the body's thread: every access of the library
+//                        provides one; the harness event k resumes the body as a foreign awaitable would - by a bare resume() -
+//                        so generated scripts never combine q with p<k>) |
 //                        t throw | x co_return          (falling off the end = co_return)
 //   next [a]             bool(gen.next(a))                         -> next true|false|nomore
 //   nnext [a]            !gen.next(a) (next_awt::operator!)          -> nnext true|false|nomore   (the negation is undone: same answers as next)
@@ -44,6 +47,7 @@
 // "Generator is busy" assert guards); `gone`: after destroy.
 #include "common.h"
 #include <cocls/generator.h>
+#include <cocls/coro_queue.h>
 
 #include <atomic>
 #include <chrono>
@@ -282,6 +286,9 @@ struct EventAwaiter {
         break;                                                                          \
     case 'g':                                                                           \
         guards.push_back(std::make_unique<Guard>());                                    \
+        break;                                                                          \
+    case 'q':                                                                           \
+        co_await cocls::pause();                                                        \
         break;                                                                          \
     case 't':                                                                           \
         throw test_exc(1);                                                              \
@@ -569,6 +576,12 @@ struct Case {
             if (w.empty()) continue;
             std::ostringstream head;
             const std::string &op = w[0];
+            // no generator yet (an input without its `script` line, e.g. while a failing case is being shrunk): nothing to operate on,
+            // no output line (the model driver ignores such lines as well)
+            if (!gen && !gone && op != "script") {
+                if (op == "end") return;
+                continue;
+            }
             head << op;
             static const char *const access_ops[] = {"next", "nnext", "anext", "sub", "subr", "call", "while", "begin", "beginc", "inc", "pinc", "for"};
             static const char *const iter_ops[] = {"begin", "beginc", "inc", "pinc", "for"};
@@ -667,7 +680,8 @@ struct Case {
                     if (busy()) head << " busy";
                     else {
                         parked.store(true);
-                        c_kawait();
+                        // the consumer coroutine runs in coroutine mode, like every coroutine of the library does
+                        coro_queue::install_queue_and_call([&] { c_kawait(); });
                     }
                 } else if (!kept_true.load() && busy()) head << " busy";
                 else {
@@ -765,7 +779,8 @@ struct Case {
                 }
             } else if (op == "anext") {
                 parked.store(true);
-                c_anext(&arg_of(w));
+                // the consumer coroutine runs in coroutine mode, like every coroutine of the library does
+                coro_queue::install_queue_and_call([&] { c_anext(&arg_of(w)); });
             } else if (op == "sub" || op == "subr") {
                 cb.c = this;
                 if (op == "sub") {
